@@ -405,11 +405,48 @@ pub fn check(thorough: bool, _seed: u64) -> Check {
         bounds: json!({"strings": format!("{:?} ends: ascending, descending, a duplicate at every position, a run of 4 equal ends at every position, one non-normal end (0,-0,5e-324,NaN,+-inf) at every position of the ascending, the descending and an evens-then-odds ordering, 2-3 copies of +-MAX / +-MIN_POSITIVE at every position; followed by piece bytes", long_txt),
             "piece_types": "Poly3, PolyN, Tag"}),
     };
+    // ends that are neighbouring doubles, in every order (a comparator that rounds must still order them): around the
+    // smallest normal numbers, around +-1, just below MAX and around an ordinary value
+    let neighbours = Phase {
+        name: "neighbouring-ends-in-every-order",
+        units: 10,
+        split: 1,
+        body: Box::new(move |unit, cx| {
+            let b = [f64::MIN_POSITIVE, -f64::MIN_POSITIVE, 1.0, -1.0, f64::MAX, -f64::MAX, 3e-308, -4.4e-308, 0.1, -123.456][unit];
+            // five neighbours around b (kept inside the finite range)
+            let lo = if b == -f64::MAX { b } else { exact::pred(exact::pred(b)) };
+            let mut al = vec![lo];
+            while al.len() < 5 {
+                let n = exact::succ(*al.last().unwrap());
+                if !n.is_finite() {
+                    break;
+                }
+                al.push(n);
+            }
+            let kind = cx.choose(3);
+            let k = 2 + cx.choose(3);
+            let mut bytes: Vec<u8> = vec![];
+            for _ in 0..k {
+                bytes.push(1);
+                bytes.extend(cx.pick(&al).to_bits().to_le_bytes());
+            }
+            if cx.flag() {
+                bytes.push(1);
+                bytes.extend([1.0f64, -1.0, f64::MAX][cx.choose(3)].to_bits().to_le_bytes());
+            }
+            bytes.push(0);
+            bytes.extend(std::iter::repeat(0x41u8).take(48));
+            dispatch(&bytes, kind, cx)
+        }),
+        classes: class_names(true).into_iter().map(|(n, _)| (n, false)).collect(),
+        bounds: json!({"strings": "2..4 ends, each any of five consecutive doubles around b (two below .. two above), b in {+-MIN_POSITIVE, +-1, +-MAX, 3e-308, -4.4e-308, 0.1, -123.456}, every order with repetition, optionally followed by one of 1 / -1 / MAX; then piece bytes",
+            "piece_types": "Poly3, PolyN, Tag"}),
+    };
     Check {
         id: "C19",
         rule: "choice tree over byte strings: each leaf is one byte string fed to the real Arbitrary impl of Piecewise<T>; Ok values are evaluated at every x of A(ends) directly, through a fresh PiecewiseEvaluator (one history: ascending, descending, ascending again, then a zig-zag of jumps; and one fresh evaluator per argument, asked twice) and through evaluate_v; non-trivial = input decoding to a function with >= 2 pieces".into(),
         assumptions: vec!["arbitrary 1.4.2 decoding of Vec<f64> (used only to classify inputs, never for the verdict)".into()],
-        phases: vec![all_bytes, patterns, structured, long, vlong],
+        phases: vec![all_bytes, patterns, structured, long, vlong, neighbours],
         extra: Default::default(),
         controls: vec![("reference decoder agrees with arbitrary on Vec<f64>", Box::new(|| {
             let b = [1u8, 0, 0, 0, 0, 0, 0, 0xf0, 0x3f, 3, 9, 9];
